@@ -179,8 +179,12 @@ func init() {
 					need := ref.MinAllowance(bout, func(x *big.Int) bool { return ref.OutWithinExact(bin, bout, a, bi(out.Amount), wi, wo, feeRaw, x) })
 					ps.viol("C03", "C03.cp_out_le_exact", "exact_in/"+kind, fmt.Sprintf("Bin=%s Bout=%s w=%d:%d fee=%s in=%s: out=%s exceeds the exact weighted-product value by %s units (allowance %s)", bin, bout, wi, wo, fee, a, out.Amount, need, al))
 				}
-				if out.Amount.BigInt().Cmp(bout) >= 0 {
-					ps.viol("C03", "C03.cp_out_lt_reserve", "exact_in/"+kind, fmt.Sprintf("Bin=%s Bout=%s in=%s: out=%s >= reserve", bin, bout, a, out.Amount))
+				if out.Amount.BigInt().Cmp(bout) > 0 {
+					ps.viol("C03", "C03.cp_out_lt_reserve", "exact_in/"+kind, fmt.Sprintf("Bin=%s Bout=%s in=%s: out=%s > reserve", bin, bout, a, out.Amount))
+				} else if out.Amount.BigInt().Cmp(bout) == 0 {
+					// the exact value is always below the reserve; with a reserve of a few units the
+					// one-unit rounding allowance of the property reaches it (judged by cp_out_le_exact)
+					st.Ev("exact_in_pays_whole_tiny_reserve_within_rounding")
 				}
 				if i%1500 == 0 {
 					st.Sample(map[string]interface{}{"case": "cp exact-in", "Bin": bin.String(), "Bout": bout.String(), "weights": fmt.Sprintf("%d:%d", wi, wo), "fee": fee.String(), "in": a.String(), "out": out.Amount.String(), "allowance": al.String()})
